@@ -22,6 +22,10 @@ state between `create` and `writeAll`).  Clauses of the property and where they 
                           `natural_sort_key_of_step_name`, `natural_sort_compares_by_value`, `natural_sort_orders_by_value`,
                           `natural_sort_latest_is_max`, `natural_sort_tmp_sorts_last`, `listing_is_natural_sort` (both models
                           composed), `natural_sort_sign_prefix_misorders` (finding F6)
+                          floats / exponent notation: `printed_number_is_one_token`, `natural_sort_key_of_number_name`,
+                          `natural_sort_compares_numbers_by_value`, `decCmp_is_value_order`, `natural_sort_orders_numbers_by_value`,
+                          `natural_sort_latest_is_max_number`   (left assumed: A-FLOAT, float() orders literals as their decimal values)
+  _checkpoint_path_step   `checkpoint_path_step_is_the_step`, `checkpoint_path_step_of_int`, `checkpoint_path_step_first_number_differs`
   Orbax retry             `retry_after_crash_orbax`
 -/
 import Flax.Model.Ckpt
